@@ -35,6 +35,8 @@ type State struct {
 	iters  map[iterKey]T
 	defers []deferRec
 	ghost  map[string]T // ghost counters etc.
+	epoch  int          // bumped by `modifies everything`: untouched heap keys start from fresh arrays
+	ghostEpoch int
 }
 
 func newState() *State {
@@ -56,6 +58,8 @@ func (s *State) clone() *State {
 		n.ghost[k] = v
 	}
 	n.top = s.top
+	n.epoch = s.epoch
+	n.ghostEpoch = s.ghostEpoch
 	n.defers = append([]deferRec(nil), s.defers...)
 	return n
 }
@@ -92,7 +96,40 @@ func (c *Ctx) heapGet(st *State, key, sort string) T {
 	if t, ok := st.heap[key]; ok {
 		return t
 	}
+	if st.epoch > 0 {
+		return c.heapEpoch(st.epoch, key, sort)
+	}
 	return c.heapInit(key, sort)
+}
+
+// heapEpoch: the unknown content of a heap key after a `modifies everything`.
+func (c *Ctx) heapEpoch(epoch int, key, sort string) T {
+	name := fmt.Sprintf("He%d.%s", epoch, smtSym(key))
+	if old, ok := c.heapSort[key]; ok && old != sort {
+		panic(fmt.Sprintf("heap key %s used at sorts %s and %s", key, old, sort))
+	}
+	c.heapSort[key] = sort
+	if _, done := c.sc.decls[name]; !done {
+		c.sc.declare(name, sort)
+		// type invariants of the new array relative to the allocation frontier of that epoch
+		if l, ok := c.keyLeaf[key]; ok {
+			top := c.epochTop[epoch]
+			_, inner := innerSort(sort)
+			if strings.HasPrefix(inner, "(Array") {
+				ks, _ := innerSort(inner)
+				x := "(select (select " + name + " r) i)"
+				if f := c.leafFact(l, x, top); f != "true" {
+					c.sc.assume(fmt.Sprintf("(forall ((r Int) (i %s)) (! %s :pattern (%s)))", ks, f, x))
+				}
+			} else if strings.HasPrefix(sort, "(Array") {
+				x := "(select " + name + " r)"
+				if f := c.leafFact(l, x, top); f != "true" {
+					c.sc.assume(fmt.Sprintf("(forall ((r Int)) (! %s :pattern (%s)))", f, x))
+				}
+			}
+		}
+	}
+	return name
 }
 
 func (c *Ctx) heapInit(key, sort string) T {
@@ -123,6 +160,17 @@ func (c *Ctx) noteRef(key, sort string, l Leaf) {
 		return
 	}
 	_, inner := innerSort(sort)
+	if l.Kind == lkSlLen && strings.HasSuffix(key, "#len") {
+		// a nil slice has length 0 (relation between the header components)
+		rk := strings.TrimSuffix(key, "#len") + "#ref"
+		rh := c.heapInit(rk, sort)
+		if strings.HasPrefix(inner, "(Array") {
+			ks, _ := innerSort(inner)
+			c.sc.assume(fmt.Sprintf("(forall ((r Int) (i %s)) (! (=> (= (select (select %s r) i) 0) (= (select (select %s r) i) 0)) :pattern ((select (select %s r) i))))", ks, rh, h, h))
+		} else {
+			c.sc.assume(fmt.Sprintf("(forall ((r Int)) (! (=> (= (select %s r) 0) (= (select %s r) 0)) :pattern ((select %s r))))", rh, h, h))
+		}
+	}
 	if strings.HasPrefix(inner, "(Array") {
 		ks, _ := innerSort(inner)
 		x := "(select (select " + h + " r) i)"
@@ -500,7 +548,7 @@ func (c *Ctx) merge(ins []edgeIn) *State {
 			lkeys[k] = true
 		}
 	}
-	for k := range lkeys {
+	for _, k := range sortedLocalKeys(lkeys) {
 		var vals []Val
 		ok := true
 		for _, in := range ins {
@@ -536,6 +584,39 @@ func (c *Ctx) merge(ins []edgeIn) *State {
 		}
 		out.heap[k] = c.mergeTerms("H."+smtSym(k), srt, ins, ts)
 	}
+	for _, in := range ins {
+		if in.st.epoch > out.epoch {
+			out.epoch = in.st.epoch
+			out.ghostEpoch = in.st.ghostEpoch
+		}
+	}
+	// keys untouched in every incoming state but living in different epochs
+	{
+		same := true
+		for _, in := range ins {
+			if in.st.epoch != ins[0].st.epoch {
+				same = false
+			}
+		}
+		if !same {
+			var all []string
+			for k := range c.heapSort {
+				all = append(all, k)
+			}
+			sort.Strings(all)
+			for _, k := range all {
+				if _, done := out.heap[k]; done {
+					continue
+				}
+				srt := c.heapSort[k]
+				var ts []T
+				for _, in := range ins {
+					ts = append(ts, c.heapGet(in.st, k, srt))
+				}
+				out.heap[k] = c.mergeTerms("H."+smtSym(k), srt, ins, ts)
+			}
+		}
+	}
 	// top
 	var tops []T
 	for _, in := range ins {
@@ -549,7 +630,7 @@ func (c *Ctx) merge(ins []edgeIn) *State {
 			ikeys[k] = true
 		}
 	}
-	for k := range ikeys {
+	for _, k := range sortedIterKeys(ikeys) {
 		var ts []T
 		ok := true
 		for _, in := range ins {
@@ -570,14 +651,10 @@ func (c *Ctx) merge(ins []edgeIn) *State {
 			gkeys[k] = true
 		}
 	}
-	for k := range gkeys {
+	for _, k := range sortedStrKeys(gkeys) {
 		var ts []T
 		for _, in := range ins {
-			t, has := in.st.ghost[k]
-			if !has {
-				t = c.ghostInit(k)
-			}
-			ts = append(ts, t)
+			ts = append(ts, c.ghostGet(in.st, k))
 		}
 		out.ghost[k] = c.mergeTerms("ghost."+k, sInt, ins, ts)
 	}
@@ -660,4 +737,44 @@ func (c *Ctx) ghostInit(k string) T {
 	n := "G0." + smtSym(k)
 	c.sc.declare(n, sInt)
 	return n
+}
+
+func sortedLocalKeys(m map[localKey]bool) []localKey {
+	var ks []localKey
+	for k := range m {
+		ks = append(ks, k)
+	}
+	sort.Slice(ks, func(i, j int) bool {
+		if ks[i].frame != ks[j].frame {
+			return ks[i].frame < ks[j].frame
+		}
+		if ks[i].alloc.Pos() != ks[j].alloc.Pos() {
+			return ks[i].alloc.Pos() < ks[j].alloc.Pos()
+		}
+		return ks[i].alloc.Name() < ks[j].alloc.Name()
+	})
+	return ks
+}
+
+func sortedIterKeys(m map[iterKey]bool) []iterKey {
+	var ks []iterKey
+	for k := range m {
+		ks = append(ks, k)
+	}
+	sort.Slice(ks, func(i, j int) bool {
+		if ks[i].frame != ks[j].frame {
+			return ks[i].frame < ks[j].frame
+		}
+		return ks[i].rng.Name() < ks[j].rng.Name()
+	})
+	return ks
+}
+
+func sortedStrKeys(m map[string]bool) []string {
+	var ks []string
+	for k := range m {
+		ks = append(ks, k)
+	}
+	sort.Strings(ks)
+	return ks
 }
